@@ -1356,7 +1356,10 @@ def installed(enable=True, key_source=None):
                     for base in (int, str, bytes):
                         if base in obj.__bases__ and '__new__' not in obj.__dict__:
                             setc(obj, '__new__', _boxed_new(base))
-        for mod in (P, M, O):
+        import aioslsk.network.connection as C
+        for mod in (P, M, O, C):
+            # (the connection module builds no buffers itself today; the names are shadowed there as well so that a
+            # buffer built on the send/receive path keeps symbolic bytes instead of concretising them one by one)
             setg(mod, 'bytearray', sym_bytearray)
             setg(mod, 'bytes', sym_bytes)
             setg(mod, 'range', sym_range)
@@ -1389,7 +1392,7 @@ STUBS = [
     '(pure-python little-endian pack/unpack, struct.error on out-of-range values and short buffers); the name `struct` in those modules -> the same',
     'uint8/uint16/uint32/uint64/int32/boolean/string/bytearr/ipaddr(+_PeerInitTicket).__new__ -> box carrying the symbolic payload; '
     'all methods executed on it are the real function objects from the class __dict__',
-    'bytearray/bytes in primitives, messages, obfuscation globals -> SBuf/SBytes (concrete length, BV8 bytes)',
+    'bytearray/bytes in primitives, messages, obfuscation, network.connection globals -> SBuf/SBytes (concrete length, BV8 bytes)',
     'range in the same modules -> lazily forking range for symbolic counts (concrete counts: builtin range)',
     'int in obfuscation globals -> int with from_bytes over BV terms (SWord: exact unbounded-int semantics by widening)',
     'zlib in primitives globals -> tagged identity (compress(x)=TAG+x, decompress(other) raises zlib.error)',
